@@ -753,3 +753,31 @@ class Shadow:
             pass
         elif st != p.state and p.state in ("hs", "tr", "sl"):
             self._dev(v, "obs.state", "driver state %s, model state %s" % (st, p.state))
+
+
+def regs_from_events(case, events):
+    """register name -> bytes for every op that stored its output in a register (full bytes only)"""
+    names = {}
+    lab = 0
+    for line in case.lines:
+        t = line.split()
+        if not t or t[0] in ("party", "thr", "endconc"):
+            continue
+        if t[0] == "reg":
+            try:
+                names["@" + t[1]] = eval_bytes(t[2], {})
+            except (SpecError, ValueError):
+                pass
+            continue
+        for tok in t[1:]:
+            if tok.startswith("out="):
+                names[str(lab)] = tok[4:]
+        lab += 1
+    regs = {k[1:]: v for k, v in names.items() if k.startswith("@")}
+    for e in events:
+        nm = names.get(e.label)
+        if nm is not None and e.ok:
+            b, _, _ = decode_out(e.kv.get("out"))
+            if b is not None:
+                regs[nm] = b
+    return regs
